@@ -5,6 +5,9 @@ import (
 	"fmt"
 	"io"
 	"math/rand"
+	"runtime"
+	"sync"
+	"sync/atomic"
 	"unsafe"
 
 	"github.com/acquirecloud/golibs/xbinary"
@@ -897,6 +900,7 @@ func driveXbinary(opt *Options) error {
 	}
 	if opt.Extra["mode"] == "longrun" {
 		driveLongRuns(tw)
+		driveManyDecodes(tw)
 		return nil
 	}
 	if opt.Extra["mode"] != "c16" {
@@ -1384,4 +1388,49 @@ func driveLongRuns(tw *TraceWriter) {
 			tw.Emit(map[string]any{"op": "Long", "kind": kind, "len": len(in), "ok": r.err == nil && r.panic == nil, "n": r.n, "panic": panicStr(r.panic)})
 		}
 	}
+}
+
+
+// driveManyDecodes: more than 2^31 decodes of short byte strings with newBuf = true in ONE process, spread over all
+// cores (a 32-bit counter somewhere in a decoder comes round): every call returns, without panicking, the bytes it was
+// given.  One summary line (n is logged clamped to TLC's integers).
+func driveManyDecodes(tw *TraceWriter) {
+	const total = 1<<31 + 1<<22
+	G := runtime.NumCPU()
+	if G > 16 {
+		G = 16
+	}
+	var bad, panics int64
+	var wg sync.WaitGroup
+	for g := 0; g < G; g++ {
+		wg.Add(1)
+		go func(g int) {
+			defer wg.Done()
+			in := []byte{3, 'a', byte('a' + g), 'c', 0xEE}
+			n := total/G + 1
+			for i := 0; i < n; {
+				func() {
+					defer func() {
+						if recover() != nil {
+							atomic.AddInt64(&panics, 1)
+							i++
+						}
+					}()
+					for ; i < n; i++ {
+						in[1] = byte('a' + i&15)
+						c, b, err := xbinary.UnmarshalBytes(in[:4], true)
+						if err != nil || c != 4 || len(b) != 3 || b[0] != in[1] || b[1] != in[2] || b[2] != 'c' {
+							atomic.AddInt64(&bad, 1)
+						}
+						if atomic.LoadInt64(&panics) > 1000 {
+							i = n
+						}
+					}
+				}()
+			}
+		}(g)
+	}
+	wg.Wait()
+	tw.Emit(map[string]any{"op": "Bulk", "n": 1<<31 - 1, "calls_millions": total >> 20, "what": "more than 2^31 short newBuf decodes in one process",
+		"bad": bad + atomic.LoadInt64(&panics), "panic": atomic.LoadInt64(&panics) > 0})
 }
